@@ -10,6 +10,7 @@ kinds
               model's reading of connect()'s checks is compared, the property says nothing here
   two         wishbone.Arbiter.bus connected to a WishboneSRAM.wb_bus
 """
+import json
 from ..common import mkrnd
 
 ENGINE_ID = 20
@@ -748,7 +749,9 @@ def run_impl(case):
         except (ValueError, TypeError) as e:
             return [[-2, _refusal(e)], []]
         try:
-            i = s.create(path=("x",))
+            # the path is optional: left out, None, or given
+            how = len(json.dumps(case["cfg"]["a"])) % 3
+            i = s.create() if how == 0 else s.create(path=None) if how == 1 else s.create(path=("x",))
         except (ValueError, TypeError) as e:
             return [[0, readback(s), members_of(s), [-2, _refusal(e)]], []]
         s2 = i.signature
